@@ -212,6 +212,15 @@ def judge(prop, f, impl, model, spec):
             judge_meta(j, f, impl, model, spec)
         else:
             judge_iter(j, f, impl, model, spec)
+    elif prop == "C13" and kind == "ctx":
+        if impl.startswith("ctx:") and model.startswith("ctx:"):
+            if not impl.startswith("ctx:-1/"):
+                j.viol = "the context node of the evaluation was moved while the nodes of the expression were drawn (after %s results): whatever is evaluated next sees another context node" % impl[4:].split("/")[0]
+            elif impl != model:
+                j.mismatch = "number of nodes drawn differs from the model's sequence: impl=%s model=%s" % (impl, model)
+            j.nontrivial = True
+        else:
+            cmp_model(j, impl, model)
     elif prop == "C13":
         judge_meta(j, f, impl, model, spec)
     elif prop == "C14":
